@@ -272,6 +272,11 @@ SCEN = {"phase": scen_phase, "set_dist": scen_set_dist, "info": scen_info_roundt
 KEY_K5 = "K5:threaded-runtime-binds-delay-distributions-at-warmup"
 
 
+def _close0(V, a, b):
+    from props.c03 import _close
+    return _close(V, a, b)
+
+
 class _JaxNoJit:
     """stands in for `jax` inside rex.asynchronous while the warm-up runs under proxy execution: compilation is not modelled (jit = identity)"""
 
@@ -353,8 +358,11 @@ def scen_async_dist(cfg):
                 snd._has_warmed_up = False
                 snd.warmup(GS, jit_step=False)
                 snd.node.delay_dist = TagDist(q_new)  # BaseNode.set_delay(delay_dist=...)
+                new_phase = V.grid("new_phase", lo=0, hi=1)
+                snd.node._phase = new_phase  # an upstream set_delay(delay=...) moved this node's phase (phase law: scen_phase)
                 asyncsym.real_reset_start(V, [snd], keep_jit_reset=True)
                 got = snd._dist_state
+                phase_ok = _close0(V, snd._phase, new_phase)
             else:
                 orig = A.update_input_state
                 A.update_input_state = lambda i, *a: i
@@ -366,12 +374,16 @@ def scen_async_dist(cfg):
                     A.update_input_state = orig
                 win_new = rcv._step_state.inputs["snd"]
                 win_new.delay_dist = TagDist(q_new)  # Connection.set_delay(delay_dist=...) followed by graph.init(): the graph state's input carries the new distribution
+                new_phase = V.grid("new_cphase", lo=0, hi=Fraction(1, 2))
+                c.connection.phase = new_phase
                 asyncsym.real_reset_start(V, [rcv], keep_jit_reset=True)
                 got = c._dist_state
+                phase_ok = _close0(V, c._phase, new_phase)
         finally:
             A.rnd = old_rnd
         from props.c03 import _close
         return {f"threaded runtime: after warm-up, a new delay distribution of a {what} is the one the next episode samples from": _close(V, got, q_new),
+                f"threaded runtime: the next episode schedules with the {what}'s current phase (expected delays set after warm-up take effect)": phase_ok,
                 "twin:warm-up completed": True}
 
     return scenario
@@ -383,7 +395,7 @@ def worker_async_dist(cfg, tier):
     from vlib import pysym
 
     res, stats = pysym.run_scenario(scen_async_dist(cfg), [A], extra_patch={"rex.asynchronous": {"jax": _JaxNoJit(A.jax)}}, timeout_ms=30000)
-    keymap = {r["name"]: KEY_K5 for r in res if r["name"].startswith("threaded runtime")}
+    keymap = {r["name"]: KEY_K5 for r in res if r["name"].startswith("threaded runtime: after warm-up, a new delay distribution")}
     whatmap = {r["name"]: "the threaded runtime binds delay_dist.reset / sample_pure of the distribution present at warm-up into its jitted functions: a distribution set afterwards never reaches the simulation" for r in res}
     obs, stats = _to_obs(res, stats, cfg, "async-dist", keymap, whatmap)
     for o in obs:
